@@ -194,11 +194,36 @@ def h_map_any(op, remove=False):
     return h
 
 
+def _native_large(case):
+    from props import C14_R
+    if not isinstance(case, dict) or 'kind' not in case:
+        return False, 'symbolic sequence: no concrete collection in the counter-model'
+    return C14_R.replay_large(case)
+
+
+def _search_large():
+    """witness search on the real code: maps of growing size, operand at the start / middle / end, new and existing keys"""
+    from props import C14_R
+    for n in (1, 2, 3, 5, 8, 9, 16, 17, 33, 65, 129):
+        gaps, hits = C14_R._large_probes(n)
+        for probe, idxs in (('new', gaps), ('hit', hits)):
+            for idx in idxs:
+                if idx < 0 or (probe == 'hit' and idx >= n):
+                    continue
+                c = dict(kind='map', keytype='int', n=n, probe=probe, idx=idx, large=True)
+                try:
+                    if C14_R.replay_large(c)[0]:
+                        return c
+                except Exception:   # noqa
+                    continue
+    return None
+
+
 def run_P_map_any(ck):
     ck.assume('any-size map obligations: comprehensions over the pair sequence are evaluated once on a generic pair; next(gen, d) returns the first '
               'produced element or d; sorted(xs, key=f) is the ascending permutation by f; keys are unique (representation invariant)')
     for op, rm in (('get', False), ('contains', False), ('update', False), ('update', True)):
         eng = Engine()
         run_harness(ck, eng, h_map_any(op, rm), f'map.{op}[any{",rm" if rm else ""}]')
-        report(ck, eng, [], kind='P')
+        report(ck, eng, [('MapType.', 'props.C14_R:replay_large', _native_large, _search_large)], kind='P')
         functions_interpreted(ck, eng)
